@@ -8,7 +8,7 @@ sys.path.insert(0, os.path.dirname(os.path.dirname(os.path.abspath(__file__))))
 from vlib import build
 from vlib.common import Check, NCPU, main_guard, pmap, run
 
-KEYS = ("applications", "target_mode", "selection_mode", "nothing_selected", "rectangular", "degenerate", "errors_raised")
+KEYS = ("operation_chains", "applications", "target_mode", "selection_mode", "nothing_selected", "rectangular", "degenerate", "errors_raised")
 
 
 def drive(chk, variant, ncases, env=None, on_fail=None):
@@ -57,6 +57,7 @@ def main():
         chk.violation(m["key"], "%s [%d cases]" % (m["detail"], m["count"]),
                       {"before": m["ref"], "after": m["port"], "tape": m["tape"], "detail": m["detail"], "cmd": exe})
     chk.require(tot["applications"] >= 100000, "only %d operation applications" % tot["applications"])
+    chk.require(tot["operation_chains"] > 5000, "only %d generators with several operations" % tot["operation_chains"])
     chk.require(tot["target_mode"] > 1000 and tot["selection_mode"] > 1000 and tot["rectangular"] > 1000, "a mode of the operation was hardly exercised")
     chk.coverage.update({
         "evaluations": tot["applications"],
@@ -66,7 +67,8 @@ def main():
                 "pi-1e-6, rectangular half-angles with analytic acceptance >= 4e-3 plus the degenerate null half-angles; monitors: count/species/times "
                 "bit-identical, |p| 1e-12, draw discipline (stand-alone op on the plain decay with the tape at n0 == generator+op, bit for bit), rigid "
                 "proper rotation and cone/window membership in target mode, membership + untouched rest in selection mode, nothing-selected behaviour, "
-                "degree entry point == radian setters; distinct = (generator, mode, section, selection) classes",
+                "degree entry point == radian setters; every third case: 2-3 operations registered in one generator == the stand-alone operations applied in "
+                "registration order (bit for bit, same deviates); distinct = (generator, mode, section, selection) classes",
         "samples": [sample] if sample else [{"note": "none"}],
         "max_deviates_consumed_by_one_operation": maxdraws,
         **tot,
